@@ -17,6 +17,9 @@ def rc_text(what):
             "for a per-property configuration with declarative invariants over the reception history; every "
             "transition of that state graph is then executed on the real DataReaderEntity/UserDefinedDataReader "
             "and both the call result and the full projected cache state are compared with the specification's. "
+            "Configurations named *_walk (C18 C19 C21 C22 C24 C25) are larger (two instances x two writers x all change "
+            "kinds x limits) and explored by TLC's simulation mode (150 behaviours of depth 14 quick, 1500 x 16 thorough, "
+            "seeded); their transitions are replayed the same way. "
             + what)
 
 
